@@ -229,7 +229,7 @@ package snaps
 //@
 //@ func buildDiffReport(inserted, deleted, diff, name, line) returns (r)
 //@   mode str
-//@   assigns alloc, nDelPrinted, nInsPrinted
+//@   assigns alloc, nDelPrinted, nInsPrinted, delText, insText
 //@   ensures (r == "") == (diff == "")
 //@   ensures [header_lines] diff == "" ==> nDelPrinted == old(nDelPrinted) && nInsPrinted == old(nInsPrinted)
 //@   ensures [header_lines2] diff != "" ==> nDelPrinted == old(nDelPrinted) + 1 && nInsPrinted == old(nInsPrinted) + 1
@@ -238,12 +238,16 @@ package snaps
 //@   mode lines
 //@   option paths-in-loops
 //@   requires dmp != nil
-//@   assigns alloc, nDelPrinted, nInsPrinted
+//@   assigns alloc, nDelPrinted, nInsPrinted, delText, insText
 //@   ensures [nonempty] a != b ==> r != ""
 //@   ensures [counts] colors.NOCOLOR ==> deleted == nDelPrinted - old(nDelPrinted) && inserted == nInsPrinted - old(nInsPrinted)
+//@   ensures [minus_lines] forall k in old(nDelPrinted)..nDelPrinted: exists i in 0..nl(a): delText[k] == seg(a, i) + "\n"
+//@   ensures [plus_lines] forall k in old(nInsPrinted)..nInsPrinted: exists i in 0..nl(b): insText[k] == seg(b, i) + "\n"
 //@   let S = wbuf[s]
 //@   let base = s != nil && !old(alloc)[s] && (forall r Ref: old(alloc)[r] ==> wbuf[r] == old(wbuf)[r])
 //@        && (colors.NOCOLOR ==> deleted == nDelPrinted - old(nDelPrinted) && inserted == nInsPrinted - old(nInsPrinted))
+//@        && old(nDelPrinted) <= nDelPrinted && old(nInsPrinted) <= nInsPrinted
+//@        && (forall k in old(nDelPrinted)..nDelPrinted: exists i in 0..len(aLines): delText[k] == aLines[i]) && (forall k in old(nInsPrinted)..nInsPrinted: exists i in 0..len(bLines): insText[k] == bLines[i])
 //@        && len(aLines) == nl(a) && (forall i in 0..nl(a): aLines[i] == seg(a, i) + "\n") && len(bLines) == nl(b) && (forall i in 0..nl(b): bLines[i] == seg(b, i) + "\n")
 //@   let outerSeen = (exists g0 in 0..$idx_1: exists c0 in 0..len($range_1[g0]): !sameR(aLines, bLines, $range_1[g0][c0])) ==> len(S) > 0
 //@   let innerSeen = (exists c0 in 0..$idx_1_1: !sameR(aLines, bLines, g[c0])) ==> len(S) > 0
@@ -260,7 +264,7 @@ package snaps
 //@ func prettyDiff(expected, received, name, line) returns (r)
 //@   mode ctl
 //@   requires dmp != nil
-//@   assigns alloc, nDelPrinted, nInsPrinted
+//@   assigns alloc, nDelPrinted, nInsPrinted, delText, insText
 //@   ensures [iff] (r == "") == (expected == received)
 //@
 //@ func addNewSnapshot(testID, snapshot, snapPath) returns (err)
@@ -503,7 +507,7 @@ package snaps
 //@   assigns nErr[t], lastErr[t], nLog[t], lastLog[t], nCleanup[t], lastCleanup[t]
 //@   assigns testEvents.items[erred], testEvents.items[added], testEvents.items[updated], testEvents.items[passed]
 //@   assigns testsRegistry.running[sp], testsRegistry.cleanup[sp], testsRegistry.running[sp][tname(t)], testsRegistry.cleanup[sp][tname(t)]
-//@   assigns fsx[sp], fsc[sp], fsdir, fswrites, alloc, nDelPrinted, nInsPrinted
+//@   assigns fsx[sp], fsc[sp], fsdir, fswrites, alloc, nDelPrinted, nInsPrinted, delText, insText
 //@   ensures [nocall] len(values) == 0 ==> dErr == 0 && dLog == 1 && nowrite && dFail == 0 && dAdd == 0 && dUpd == 0 && dPass == 0
 //@   ensures [ordinal] len(values) > 0 ==> ordinalTaken
 //@   ensures [one_outcome] len(values) > 0 ==>
@@ -574,7 +578,7 @@ package snaps
 //@   assigns nErr[t], lastErr[t], nLog[t], lastLog[t], nCleanup[t], lastCleanup[t]
 //@   assigns testEvents.items[erred], testEvents.items[added], testEvents.items[updated], testEvents.items[passed]
 //@   assigns testsRegistry.running[sp], testsRegistry.cleanup[sp], testsRegistry.running[sp][tname(t)], testsRegistry.cleanup[sp][tname(t)]
-//@   assigns fsx[sp], fsc[sp], fsdir, fswrites, alloc, nDelPrinted, nInsPrinted
+//@   assigns fsx[sp], fsc[sp], fsdir, fswrites, alloc, nDelPrinted, nInsPrinted, delText, insText
 //@   ensures [invalid] !valid ==> failed && nowrite && ordinalTaken
 //@   ensures [matcher_errors] valid && nme > 0 ==> failed && nowrite && ordinalTaken
 //@   ensures [ordinal] true ==> ordinalTaken
@@ -646,7 +650,7 @@ package snaps
 //@   assigns nErr[t], lastErr[t], nLog[t], lastLog[t], nCleanup[t], lastCleanup[t]
 //@   assigns testEvents.items[erred], testEvents.items[added], testEvents.items[updated], testEvents.items[passed]
 //@   assigns testsRegistry.running[sp], testsRegistry.cleanup[sp], testsRegistry.running[sp][tname(t)], testsRegistry.cleanup[sp][tname(t)]
-//@   assigns fsx[sp], fsc[sp], fsdir, fswrites, alloc, nDelPrinted, nInsPrinted
+//@   assigns fsx[sp], fsc[sp], fsdir, fswrites, alloc, nDelPrinted, nInsPrinted, delText, insText
 //@   ensures [invalid] !valid ==> failed && nowrite && ordinalTaken
 //@   ensures [matcher_errors] valid && nme > 0 ==> failed && nowrite && ordinalTaken
 //@   ensures [ordinal] true ==> ordinalTaken
@@ -708,7 +712,7 @@ package snaps
 //@   assigns nErr[t], lastErr[t], nLog[t], lastLog[t], nCleanup[t], lastCleanup[t]
 //@   assigns testEvents.items[erred], testEvents.items[added], testEvents.items[updated], testEvents.items[passed]
 //@   assigns standaloneTestsRegistry.running[gp], standaloneTestsRegistry.cleanup[gp]
-//@   assigns fsx[sp], fsc[sp], fsdir, fswrites, alloc, nDelPrinted, nInsPrinted
+//@   assigns fsx[sp], fsc[sp], fsdir, fswrites, alloc, nDelPrinted, nInsPrinted, delText, insText
 //@   ensures [ordinal] ordinalTaken
 //@   ensures [one_outcome] true ==>
 //@        failed
@@ -768,7 +772,7 @@ package snaps
 //@   assigns nErr[t], lastErr[t], nLog[t], lastLog[t], nCleanup[t], lastCleanup[t]
 //@   assigns testEvents.items[erred], testEvents.items[added], testEvents.items[updated], testEvents.items[passed]
 //@   assigns standaloneTestsRegistry.running[gp], standaloneTestsRegistry.cleanup[gp]
-//@   assigns fsx[sp], fsc[sp], fsdir, fswrites, alloc, nDelPrinted, nInsPrinted
+//@   assigns fsx[sp], fsc[sp], fsdir, fswrites, alloc, nDelPrinted, nInsPrinted, delText, insText
 //@   ensures [invalid] !valid ==> failed && nowrite && ordinalTaken
 //@   ensures [matcher_errors] valid && nme > 0 ==> failed && nowrite && ordinalTaken
 //@   ensures [ordinal] ordinalTaken
@@ -823,7 +827,7 @@ package snaps
 //@   assigns nErr[t], lastErr[t], nLog[t], lastLog[t], nCleanup[t], lastCleanup[t]
 //@   assigns testEvents.items[erred], testEvents.items[added], testEvents.items[updated], testEvents.items[passed]
 //@   assigns testsRegistry.running[sp], testsRegistry.cleanup[sp], testsRegistry.running[sp][tname(t)], testsRegistry.cleanup[sp][tname(t)]
-//@   assigns fsx[sp], fsc[sp], fsdir, fswrites, alloc, nDelPrinted, nInsPrinted
+//@   assigns fsx[sp], fsc[sp], fsdir, fswrites, alloc, nDelPrinted, nInsPrinted, delText, insText
 //@   ensures [nocall] len(values) == 0 ==> dErr == 0 && dLog == 1 && nowrite && dFail == 0 && dAdd == 0 && dUpd == 0 && dPass == 0
 //@   ensures [ordinal] len(values) > 0 ==> ordinalTaken
 //@   ensures [one_outcome] len(values) > 0 ==>
@@ -880,7 +884,7 @@ package snaps
 //@   assigns nErr[t], lastErr[t], nLog[t], lastLog[t], nCleanup[t], lastCleanup[t]
 //@   assigns testEvents.items[erred], testEvents.items[added], testEvents.items[updated], testEvents.items[passed]
 //@   assigns testsRegistry.running[sp], testsRegistry.cleanup[sp], testsRegistry.running[sp][tname(t)], testsRegistry.cleanup[sp][tname(t)]
-//@   assigns fsx[sp], fsc[sp], fsdir, fswrites, alloc, nDelPrinted, nInsPrinted
+//@   assigns fsx[sp], fsc[sp], fsdir, fswrites, alloc, nDelPrinted, nInsPrinted, delText, insText
 //@   ensures [nocall] len(values) == 0 ==> dErr == 0 && dLog == 1 && nowrite && dFail == 0 && dAdd == 0 && dUpd == 0 && dPass == 0
 //@   ensures [ordinal] len(values) > 0 ==> ordinalTaken
 //@   ensures [one_outcome] len(values) > 0 ==>
@@ -942,7 +946,7 @@ package snaps
 //@   assigns nErr[t], lastErr[t], nLog[t], lastLog[t], nCleanup[t], lastCleanup[t]
 //@   assigns testEvents.items[erred], testEvents.items[added], testEvents.items[updated], testEvents.items[passed]
 //@   assigns testsRegistry.running[sp], testsRegistry.cleanup[sp], testsRegistry.running[sp][tname(t)], testsRegistry.cleanup[sp][tname(t)]
-//@   assigns fsx[sp], fsc[sp], fsdir, fswrites, alloc, nDelPrinted, nInsPrinted
+//@   assigns fsx[sp], fsc[sp], fsdir, fswrites, alloc, nDelPrinted, nInsPrinted, delText, insText
 //@   ensures [invalid] !valid ==> failed && nowrite && ordinalTaken
 //@   ensures [matcher_errors] valid && nme > 0 ==> failed && nowrite && ordinalTaken
 //@   ensures [ordinal] true ==> ordinalTaken
@@ -1004,7 +1008,7 @@ package snaps
 //@   assigns nErr[t], lastErr[t], nLog[t], lastLog[t], nCleanup[t], lastCleanup[t]
 //@   assigns testEvents.items[erred], testEvents.items[added], testEvents.items[updated], testEvents.items[passed]
 //@   assigns testsRegistry.running[sp], testsRegistry.cleanup[sp], testsRegistry.running[sp][tname(t)], testsRegistry.cleanup[sp][tname(t)]
-//@   assigns fsx[sp], fsc[sp], fsdir, fswrites, alloc, nDelPrinted, nInsPrinted
+//@   assigns fsx[sp], fsc[sp], fsdir, fswrites, alloc, nDelPrinted, nInsPrinted, delText, insText
 //@   ensures [invalid] !valid ==> failed && nowrite && ordinalTaken
 //@   ensures [matcher_errors] valid && nme > 0 ==> failed && nowrite && ordinalTaken
 //@   ensures [ordinal] true ==> ordinalTaken
@@ -1067,7 +1071,7 @@ package snaps
 //@   assigns nErr[t], lastErr[t], nLog[t], lastLog[t], nCleanup[t], lastCleanup[t]
 //@   assigns testEvents.items[erred], testEvents.items[added], testEvents.items[updated], testEvents.items[passed]
 //@   assigns testsRegistry.running[sp], testsRegistry.cleanup[sp], testsRegistry.running[sp][tname(t)], testsRegistry.cleanup[sp][tname(t)]
-//@   assigns fsx[sp], fsc[sp], fsdir, fswrites, alloc, nDelPrinted, nInsPrinted
+//@   assigns fsx[sp], fsc[sp], fsdir, fswrites, alloc, nDelPrinted, nInsPrinted, delText, insText
 //@   ensures [invalid] !valid ==> failed && nowrite && ordinalTaken
 //@   ensures [matcher_errors] valid && nme > 0 ==> failed && nowrite && ordinalTaken
 //@   ensures [ordinal] true ==> ordinalTaken
@@ -1129,7 +1133,7 @@ package snaps
 //@   assigns nErr[t], lastErr[t], nLog[t], lastLog[t], nCleanup[t], lastCleanup[t]
 //@   assigns testEvents.items[erred], testEvents.items[added], testEvents.items[updated], testEvents.items[passed]
 //@   assigns testsRegistry.running[sp], testsRegistry.cleanup[sp], testsRegistry.running[sp][tname(t)], testsRegistry.cleanup[sp][tname(t)]
-//@   assigns fsx[sp], fsc[sp], fsdir, fswrites, alloc, nDelPrinted, nInsPrinted
+//@   assigns fsx[sp], fsc[sp], fsdir, fswrites, alloc, nDelPrinted, nInsPrinted, delText, insText
 //@   ensures [invalid] !valid ==> failed && nowrite && ordinalTaken
 //@   ensures [matcher_errors] valid && nme > 0 ==> failed && nowrite && ordinalTaken
 //@   ensures [ordinal] true ==> ordinalTaken
@@ -1184,7 +1188,7 @@ package snaps
 //@   assigns nErr[t], lastErr[t], nLog[t], lastLog[t], nCleanup[t], lastCleanup[t]
 //@   assigns testEvents.items[erred], testEvents.items[added], testEvents.items[updated], testEvents.items[passed]
 //@   assigns standaloneTestsRegistry.running[gp], standaloneTestsRegistry.cleanup[gp]
-//@   assigns fsx[sp], fsc[sp], fsdir, fswrites, alloc, nDelPrinted, nInsPrinted
+//@   assigns fsx[sp], fsc[sp], fsdir, fswrites, alloc, nDelPrinted, nInsPrinted, delText, insText
 //@   ensures [ordinal] ordinalTaken
 //@   ensures [one_outcome] true ==>
 //@        failed
@@ -1231,7 +1235,7 @@ package snaps
 //@   assigns nErr[t], lastErr[t], nLog[t], lastLog[t], nCleanup[t], lastCleanup[t]
 //@   assigns testEvents.items[erred], testEvents.items[added], testEvents.items[updated], testEvents.items[passed]
 //@   assigns standaloneTestsRegistry.running[gp], standaloneTestsRegistry.cleanup[gp]
-//@   assigns fsx[sp], fsc[sp], fsdir, fswrites, alloc, nDelPrinted, nInsPrinted
+//@   assigns fsx[sp], fsc[sp], fsdir, fswrites, alloc, nDelPrinted, nInsPrinted, delText, insText
 //@   ensures [ordinal] ordinalTaken
 //@   ensures [one_outcome] true ==>
 //@        failed
@@ -1283,7 +1287,7 @@ package snaps
 //@   assigns nErr[t], lastErr[t], nLog[t], lastLog[t], nCleanup[t], lastCleanup[t]
 //@   assigns testEvents.items[erred], testEvents.items[added], testEvents.items[updated], testEvents.items[passed]
 //@   assigns standaloneTestsRegistry.running[gp], standaloneTestsRegistry.cleanup[gp]
-//@   assigns fsx[sp], fsc[sp], fsdir, fswrites, alloc, nDelPrinted, nInsPrinted
+//@   assigns fsx[sp], fsc[sp], fsdir, fswrites, alloc, nDelPrinted, nInsPrinted, delText, insText
 //@   ensures [invalid] !valid ==> failed && nowrite && ordinalTaken
 //@   ensures [matcher_errors] valid && nme > 0 ==> failed && nowrite && ordinalTaken
 //@   ensures [ordinal] ordinalTaken
@@ -1336,7 +1340,7 @@ package snaps
 //@   assigns nErr[t], lastErr[t], nLog[t], lastLog[t], nCleanup[t], lastCleanup[t]
 //@   assigns testEvents.items[erred], testEvents.items[added], testEvents.items[updated], testEvents.items[passed]
 //@   assigns standaloneTestsRegistry.running[gp], standaloneTestsRegistry.cleanup[gp]
-//@   assigns fsx[sp], fsc[sp], fsdir, fswrites, alloc, nDelPrinted, nInsPrinted
+//@   assigns fsx[sp], fsc[sp], fsdir, fswrites, alloc, nDelPrinted, nInsPrinted, delText, insText
 //@   ensures [invalid] !valid ==> failed && nowrite && ordinalTaken
 //@   ensures [matcher_errors] valid && nme > 0 ==> failed && nowrite && ordinalTaken
 //@   ensures [ordinal] ordinalTaken
